@@ -328,6 +328,9 @@ func intsToString(v []int) string {
 	return sb.String()
 }
 
+// Regress is the scenario name found by the last ParseStream call (if any).
+var Regress string
+
 // ParseStream reads the "stream=" line of a trace file.
 func ParseStream(path string) (prop, key string, vals []int, err error) {
 	b, err := os.ReadFile(path)
@@ -343,6 +346,8 @@ func ParseStream(path string) (prop, key string, vals []int, err error) {
 			prop = strings.TrimPrefix(line, "property=")
 		case strings.HasPrefix(line, "key="):
 			key = strings.TrimPrefix(line, "key=")
+		case strings.HasPrefix(line, "regress="):
+			Regress = strings.TrimPrefix(line, "regress=")
 		case strings.HasPrefix(line, "stream="):
 			s := strings.TrimPrefix(line, "stream=")
 			if s == "" {
